@@ -207,7 +207,7 @@ fn main() {
                 let title = if rng.below(5) == 0 { None } else { Some(r_title(&mut rng)) };
                 let full = title.is_some() && rng.coin();
                 let port = r_port(&mut rng);
-                let (ty, addr): (&str, String) = match rng.below(9) {
+                let (ty, addr): (&str, String) = match rng.below(10) {
                     0 => ("sa", SocketAddr::from((r_v4(&mut rng), port)).to_string()),
                     1 => ("v4", SocketAddrV4::new(r_v4(&mut rng), port).to_string()),
                     2 => ("str", SocketAddrV4::new(r_v4(&mut rng), port).to_string()),
@@ -221,7 +221,19 @@ fn main() {
                         ("sa", SocketAddr::V6(SocketAddrV6::new(r_v6(&mut rng), port, 0, scope)).to_string())
                     }
                     6 => ("str", SocketAddrV6::new(r_v6(&mut rng), port, 0, 0).to_string()),
-                    _ => ("str", format!("{}:{}", r_host(&mut rng), port)),
+                    7 => ("str", format!("{}:{}", r_host(&mut rng), port)),
+                    _ => {
+                        // host:port strings that contain '@' themselves (start, middle, end, several)
+                        let h = r_host(&mut rng);
+                        let s = match rng.below(5) {
+                            0 => format!("@{h}:{port}"),
+                            1 => format!("{}@{h}:{port}", r_host(&mut rng)),
+                            2 => format!("{h}:{port}@"),
+                            3 => format!("{}@{}@{h}:{port}", r_host(&mut rng), r_host(&mut rng)),
+                            _ => format!("@@{h}@:{port}"),
+                        };
+                        ("str", s)
+                    }
                 };
                 *by_ty.entry(format!("{}{}", if full { "full/" } else { "ae/" }, ty)).or_default() += 1;
                 match run_case(full, ty, title.as_deref(), &addr) {
